@@ -218,6 +218,22 @@ Proof.
 Qed.
 End App.
 
+(* the three find_link facts in one statement *)
+Theorem find_link_app (g1 g2 : graph) :
+  Forall node_ok g1 -> Forall node_ok g2 -> NoDup (gk (g1 ++ g2)) ->
+  forall k d y t f,
+  (find_link g1 k d = Some (y, t, f) -> find_link (g1 ++ g2) k d = Some (y, t, f)) /\
+  (find_link g2 k d = Some (y, t, f) -> find_link (g1 ++ g2) k d = Some (length g1 + y, t, f)) /\
+  (find_link (g1 ++ g2) k d = Some (y, t, f) ->
+     (y < length g1 /\ find_link g1 k d = Some (y, t, f)) \/
+     (length g1 <= y /\ find_link g2 k d = Some (y - length g1, t, f))).
+Proof.
+  intros H1 H2 H3 k d y t f. split; [|split].
+  - exact (find_link_app_l g1 g2 H1 H2 H3 k d y t f).
+  - exact (find_link_app_r g1 g2 H1 H2 H3 k d y t f).
+  - exact (find_link_app_inv g1 g2 H1 H2 H3 k d y t f).
+Qed.
+
 (* ---------------------------------------------------------------- links_sym_on *)
 Lemma links_sym_on_all (g : graph) : links_sym D K stranded g <-> links_sym_on (fun _ _ => True) g.
 Proof.
